@@ -66,6 +66,7 @@ func runSweep(r *vrun.Run) {
 		if parent == pLive || parent == pPre {
 			sc.EpsNs = 0
 		}
+		sc.CustomParent = runner != rRAWT && parent != pLive && idx%3 == 1
 		// which structural hang witness is taken if the runner does not return (see bubbleBody)
 		us := off / 1000
 		sc.Confirm = us%16 == 0 || (us >= -2 && us <= 2)
@@ -155,6 +156,11 @@ func bubbleBody(sc scen, st *state, out *bubbleOut) {
 	st.start = time.Now()
 	parent, pcancel := context.WithCancel(context.Background())
 	defer pcancel()
+	if sc.CustomParent {
+		cc := newCallerCtx()
+		parent, pcancel = cc, cc.cancel
+		defer pcancel()
+	}
 	var store *parallelisation.CancelFunctionStore
 	if sc.Runner == rStore {
 		store = parallelisation.NewCancelFunctionsStore()
